@@ -212,7 +212,10 @@ DataMuts(ci, f) ==
         Mut(ci, "data.flip_hi", f, <<Xor(f.o + f.l - 1, 128)>>),
         Mut(ci, "data.flip_mid", f, <<Xor(f.o + f.l \div 2, 16)>>),
         Mut(ci, "data.zero8", f, <<Repl(f.o, Min2(8, f.l), Zeros(Min2(8, f.l)))>>),
-        Mut(ci, "data.ff8", f, <<Repl(f.o, Min2(8, f.l), [j \in 1..Min2(8, f.l) |-> 255])>>)}
+        Mut(ci, "data.ff8", f, <<Repl(f.o, Min2(8, f.l), [j \in 1..Min2(8, f.l) |-> 255])>>),
+        \* an opaque byte string saturated (every aligned 8- or 16-byte window reads as 2^64-1 / 2^128-1)
+        Mut(ci, "data.ff64", f, <<Repl(f.o, Min2(64, f.l), [j \in 1..Min2(64, f.l) |-> 255])>>),
+        Mut(ci, "data.ff_tail16", f, <<Repl(f.o + f.l - Min2(16, f.l), Min2(16, f.l), [j \in 1..Min2(16, f.l) |-> 255])>>)}
 
 \* operators on the boundary in front of a field
 BoundaryMuts(ci, f, len) ==
